@@ -309,6 +309,44 @@ def rebaseDescendants (r : Repo) : Repo :=
   let r := updateHeads (rebaseRefs r)
   { r with mapping := [] }
 
+/-! ### executable monitor for the premise of `Props/C10.rebase_inv_partial`
+
+`rebase_descendants` is proved to re-establish the invariant *given* that after its rebase loop and
+reference updates the index tables are still well-formed, the references are visible and none of
+them names a rewritten commit.  The driver evaluates that premise on every `rebase` of every case
+(`Props/C10.checkRebaseRefsOk_sound` proves the monitor sound). -/
+
+def checkWF (r : Repo) : Bool :=
+  let n := r.size
+  let row := fun c => r.ancs.getD c []
+  decide (0 < n) && decide (r.ancs.length = r.parents.length) &&
+  (List.range n).all fun c =>
+    (row c).contains c &&
+    (row c).all (fun a => decide (a < n)) &&
+    (row c).contains 0 &&
+    (r.parentsOf c).all (fun p => decide (p < n) && p != c) &&
+    (c == 0 || !(r.parentsOf c).isEmpty) &&
+    (List.range n).all (fun x =>
+      (row c).contains x == (x == c || (r.parentsOf c).any fun p => (row p).contains x)) &&
+    (row c).all (fun b => (row b).all fun a => (row c).contains a) &&
+    (row c).all (fun a => !(row a).contains c || a == c)
+
+def checkNodup : List Nat → Bool
+  | [] => true
+  | x :: xs => !xs.contains x && checkNodup xs
+
+def checkCovered (r : Repo) : Bool :=
+  r.bookmarks.all (fun e => (addedIds e.2).all r.isVisible) && r.wcs.all (fun e => r.isVisible e.2)
+
+def checkRefsAvoidKeys (r : Repo) : Bool :=
+  r.bookmarks.all (fun e => (addedIds e.2).all fun x => !r.keys.contains x) &&
+    r.wcs.all (fun e => !r.keys.contains e.2)
+
+def checkRebaseRefsOk (r : Repo) : Bool :=
+  let r1 := rebaseRefs r
+  checkWF r1 && checkNodup r1.heads && r1.heads.all (fun h => decide (h < r1.size)) &&
+    checkCovered r1 && checkRefsAvoidKeys r1
+
 /-! ### `Transaction::commit` -/
 
 /-- `Transaction::write`: `none` = the `has_rewrites()` assertion fires; otherwise `consume`
